@@ -78,6 +78,20 @@ theorem insert_update_equivalent (es : List Entry) : specOf (es.map asInsert) = 
   | nil => intro m; rfl
   | cons e es ih => intro m; simp only [List.map_cons, List.foldl_cons, specStep_asInsert]; exact ih _
 
+/-- `chroniclerV2.Load` as coded: `LoadIndex`; on an error nothing is loaded (logged); a record whose
+    payload is empty cannot be decoded into a treasure and is skipped (logged); when the header's
+    entry count says the file is fragmented enough (`heals`: the float comparison against the
+    threshold and the size cap, an input here) the file is rewritten in place by
+    `CompactFromIndex` under the chronicler's name, or the file's if it has none. -/
+def chronLoad (cfg : Cfg) (codec : Codec) (crc : Checksum) (bs now : Nat) (chronName : Bytes) (heals : Bool) (st : St) :
+    Index × St :=
+  match loadIndex cfg codec.toDecoder crc st.file with
+  | .error _ => ([], st)
+  | .ok (idx, fileName) =>
+    let nm := if chronName.isEmpty then fileName else chronName
+    let st' := if heals && st.sess.isNone then (compactFromIndexSt cfg codec crc bs now nm idx st).1 else st
+    (idx.filter (fun p => !p.2.isEmpty), st')
+
 /-- the chronicler's choice never produces an operation a reader ignores -/
 theorem entryOf_op (t : Treasure) : (entryOf t).op = opDelete ∨ (entryOf t).op = opInsert ∨ (entryOf t).op = opUpdate := by
   unfold entryOf
